@@ -109,3 +109,38 @@ def snapshot_equal(a, b):
     if a.keys() != b.keys():
         return False
     return all(a[k].shape == b[k].shape and np.array_equal(a[k], b[k]) for k in a)
+
+
+# ----------------------------------------------------------------------------- conditionals
+def make_cond(p):
+    """Build the conditional object; returns (obj, kwargs) where kwargs carries u for NN-control."""
+    from . import oracle
+
+    kind, ctor = p["kind"], p.get("ctor", "Sigma")
+    Sig = N(p["Sigma"])
+    kw = {}
+    if ctor == "Sigma":
+        kw = {"Sigma": J(Sig)}
+    elif ctor == "Lambda":
+        kw = {"Lambda": J(oracle.inv_spd(Sig))}
+    else:
+        kw = {"Sigma": J(Sig), "Lambda": J(oracle.inv_spd(Sig)), "ln_det_Sigma": J(oracle.slogdet_spd(Sig)[0])}
+    if kind == "full":
+        return conditional.ConditionalGaussianPDF(M=J(p["M"]), b=J(p["b"]), **kw), {}
+    if kind == "diag":
+        return conditional.ConditionalGaussianDiagPDF(M=J(p["M"]), b=J(p["b"]), **kw), {}
+    if kind == "identity":
+        return conditional.ConditionalIdentityGaussianPDF(**kw), {}
+    if kind == "identity_diag":
+        return conditional.ConditionalIdentityDiagGaussianPDF(**kw), {}
+    if kind == "nn":
+        W1, b1, W2, b2 = J(p["W1"]), J(p["b1"]), J(p["W2"]), J(p["b2"])
+
+        def control_func(u):
+            return jnp.tanh(u @ W1 + b1) @ W2 + b2
+
+        c = conditional.NNControlGaussianConditional(
+            Sigma=J(Sig), num_cond_dim=int(p["Dx"]), num_control_dim=int(p["Du"]), control_func=control_func
+        )
+        return c, {"u": J(p["u"])}
+    raise ValueError(kind)
